@@ -977,7 +977,9 @@ static void gen(rng &R, const std::string &tier)
                 for (long sv : star) l += " " + std::to_string(sv);
                 puts(l.c_str());
             };
-            emit("sh", t);
+            // glibc 2.36 itself misses ISO in the class of finding C13-g-style-carry with `#`: `%#G` of 999999.5
+            // gives 1.E+06 (ISO 1.00000E+06) - there the text is only compared between the two implementations
+            emit(Gen::g_style_carry(f, x, star) ? "shm" : "sh", t);
             int muts = (int)R.range(1, 3);
             for (int k = 0; k < muts; k++)
             {
